@@ -54,15 +54,17 @@ def rule_revalidate(ctx):
                     ok = False
         ctx.ob(R, fi, e, ok, f"{unparse(e.ast)[:40]} can override a position / reset that appeared while waiting for the committed offset", text="seek-wins-1:" + unparse(e.ast)[:40])
     po = ctx.one(_awaits(c, "_proc_offset_request"), "await _proc_offset_request")
-    second = [e for e in eff if c.dominates(po, e)]
+    # (reachability rather than dominance: when the lookup lives in a try whose handlers fall through to a `result is None` return, those
+    # handler paths reach the code below in the graph although they cannot at run time)
+    second = [e for e in eff if c.path_exists(po, e, exc=False) and not c.path_exists(e, po)]
     ctx.floor(second, 1, "reset after ListOffsets")
     for e in second:
-        at = [t for t in tests if unparse(t.ast) == "tp_state.awaiting_reset" and c.dominates(po, t)]
+        at = [t for t in tests if unparse(t.ast) == "tp_state.awaiting_reset" and c.path_exists(po, t, exc=False) and not c.path_exists(t, po)]
         ok = call_attr(e.ast) == "reset_to" and any(c.dominated_by_branch(t, "T", e) for t in at)
         ctx.ob(R, fi, e, ok, "the looked-up offset is applied although a seek() ended the reset meanwhile", text="seek-wins-2")
         # state re-read after the await
         ds = [d for d in c.reaching_defs()[e].get("tp_state", ())]
-        ctx.ob(R, fi, e, all(c.dominates(po, d) for d in ds) and bool(ds), "partition state used after ListOffsets was read before it", text="state-reread")
+        ctx.ob(R, fi, e, all(c.path_exists(po, d, exc=False) and not c.path_exists(d, po) for d in ds) and bool(ds), "partition state used after ListOffsets was read before it", text="state-reread")
         a0 = arg_of(e.ast, 0)
         od = local_defs(c, unparse(a0)) if isinstance(a0, ast.Name) else []
         okl = len(od) == 1 and def_value(od[0]) is not None and unparse(def_value(od[0])) == "offsets[tp][0]"
@@ -331,7 +333,19 @@ def rule_committed_source(ctx):
     uc = c.calls(attr="update_committed")
     it = [t for t in c.nodes if t.kind == "test" and isinstance(t.ast, ast.Compare) and len(t.ast.ops) == 1 and isinstance(t.ast.ops[0], (ast.In, ast.NotIn)) and unparse(t.ast.comparators[0]) == "offsets"]
     ok = len(uc) in (1, 2) and len(it) == 1
-    if ok:
+    if len(uc) == 1 and not it:
+        # the dict.get spelling: update_committed(offsets.get(tp, <nothing committed>))
+        a0 = arg_of(uc[0].ast, 0)
+        if isinstance(a0, ast.Call) and unparse(a0.func) == "offsets.get" and len(a0.args) == 2:
+            dflt = a0.args[1]
+            if isinstance(dflt, ast.Name):
+                dd = local_defs(c, dflt.id)
+                dflt = def_value(dd[0]) if len(dd) == 1 else None
+            la_ = c.enclosing(uc[0], types=(ast.For,), role="body")
+            ok = dflt is not None and "UNKNOWN_OFFSET" in unparse(dflt) and bool(la_) and unparse(a0.args[0]) == unparse(la_[0][0].target)
+            ctx.ob(R, fi, fi.node, ok, "committed waiters are not answered `reply offset, else UNKNOWN`", text="answer-values")
+            it = None
+    if it is not None and ok:
         l_in, l_out = ("T", "F") if isinstance(it[0].ast.ops[0], ast.In) else ("F", "T")     # `tp in offsets` / `tp not in offsets`
         # the values handed to update_committed, each with the node that decides under which arm it is chosen (the call itself, or the
         # definition of the local that is passed)
@@ -347,7 +361,8 @@ def rule_committed_source(ctx):
         b = [v for v, n in vals if v is not None and c.dominated_by_branch(it[0], l_out, n)]
         ok = len(a) == 1 and len(b) == 1 and len(vals) == 2 and unparse(a[0]) == f"offsets[{unparse(it[0].ast.left)}]" and "UNKNOWN_OFFSET" in unparse(b[0]) \
             and all(c.exit not in c.reachable([m for m, l in it[0].succ if l == lab], avoid=set(uc), exc=False, include_src=True) or True for lab in ("T", "F"))
-    ctx.ob(R, fi, fi.node, ok, "committed waiters are not answered `reply offset, else UNKNOWN`", text="answer-values")
+    if it is not None:
+        ctx.ob(R, fi, fi.node, ok, "committed waiters are not answered `reply offset, else UNKNOWN`", text="answer-values")
     sentinel_exact(ctx, R)
     ds = local_defs(c, "offsets")
     ctx.ob(R, fi, fi.node, len(ds) == 1 and ds[0].stmt is fo.stmt, "`offsets` is not the OffsetFetch result", text="offsets-def")
